@@ -87,6 +87,7 @@ package middleware
 //@ func Redoc
 //@ watch ED = call (*RedocOpts).EnsureDefaults
 //@ watch J = call path.Join
+//@ mayabsent J
 //@ watch EX = call (*html/template.Template).Execute
 //@ watch SU = call serveUI
 //@ panics ok
@@ -98,6 +99,7 @@ package middleware
 //@ func RapiDoc
 //@ watch ED = call (*RapiDocOpts).EnsureDefaults
 //@ watch J = call path.Join
+//@ mayabsent J
 //@ watch EX = call (*html/template.Template).Execute
 //@ watch SU = call serveUI
 //@ panics ok
@@ -109,6 +111,7 @@ package middleware
 //@ func SwaggerUI
 //@ watch ED = call (*SwaggerUIOpts).EnsureDefaults
 //@ watch J = call path.Join
+//@ mayabsent J
 //@ watch EX = call (*html/template.Template).Execute
 //@ watch SU = call serveUI
 //@ panics ok
@@ -120,6 +123,7 @@ package middleware
 //@ func SwaggerUIOAuth2Callback
 //@ watch ED = call (*SwaggerUIOpts).EnsureDefaultsOauth2
 //@ watch J = call path.Join
+//@ mayabsent J
 //@ watch EX = call (*html/template.Template).Execute
 //@ watch SU = call serveUI
 //@ panics ok
